@@ -153,8 +153,10 @@ func (l *epLocal) Panic(ctx context.Context, x int) (int, error) {
 	panic(errors.New("boom"))
 }
 
+var stackBuf = make([]byte, 1<<20)
+
 func aliveGoids() map[uint64]bool {
-	buf := make([]byte, 1<<20)
+	buf := stackBuf
 	n := runtime.Stack(buf, true)
 	m := map[uint64]bool{}
 	for _, line := range strings.Split(string(buf[:n]), "\n") {
@@ -527,13 +529,18 @@ func RunEp(t *testing.T, calls []EpCall, choose func(step int, v *EpView) (EpCho
 			return true
 		}
 
-		for step := 0; step < 400; step++ {
+		nfail := 0
+		for step := 0; step < 600; step++ {
 			c, ok := choose(step, view)
 			if !ok {
 				break
 			}
 			if !apply(c) {
-				break
+				nfail++
+				if nfail > 50 {
+					break
+				}
+				continue
 			}
 			synctest.Wait()
 			o := observe()
@@ -584,8 +591,8 @@ func RunEp(t *testing.T, calls []EpCall, choose func(step int, v *EpView) (EpCho
 			sort.Strings(res.Leaked)
 			// leaked goroutines would make the bubble panic; report and bail out through a panic the
 			// parent recognises
-			b, _ := json.Marshal(res)
-			panic("LEAK " + string(b))
+			b, _ := json.Marshal(map[string]any{"calls": res.Calls, "choices": choicesOf(res.Trace), "leaked": res.Leaked})
+			panic("LEAK " + string(b) + " KAEL")
 		}
 	})
 	return res
@@ -655,11 +662,26 @@ var epFns = []string{"echo", "echo", "notify", "fail", "notifyerr", "gated", "ga
 func RandomEpChooser(r *rand.Rand, calls []EpCall, maxSteps int, faultRate int) func(int, *EpView) (EpChoice, bool) {
 	nreq := 0
 	ndeliv := 0
+	lateLink := r.Intn(3) == 0
 	return func(step int, v *EpView) (EpChoice, bool) {
-		if step >= maxSteps {
-			return EpChoice{}, false
-		}
 		runnable := v.Runnable()
+		if lateLink && step < maxSteps*2/3 {
+			// keep Link parked before it reads the fatal slot for most of the workload
+			var rr []string
+			for _, n := range runnable {
+				if n != "link" {
+					rr = append(rr, n)
+				}
+			}
+			runnable = rr
+		}
+		if step >= maxSteps {
+			// drain: only run what is runnable until quiescence
+			if len(runnable) == 0 || step >= maxSteps+300 {
+				return EpChoice{}, false
+			}
+			return EpChoice{Run: runnable[r.Intn(len(runnable))]}, true
+		}
 		var opts []EpChoice
 		for _, n := range runnable {
 			// running threads is the most common choice
@@ -726,4 +748,12 @@ func FixedEpChooser(cs []EpChoice) func(int, *EpView) (EpChoice, bool) {
 		}
 		return cs[step], true
 	}
+}
+
+func choicesOf(tr []EpStep) []EpChoice {
+	var cs []EpChoice
+	for _, st := range tr {
+		cs = append(cs, st.C)
+	}
+	return cs
 }
